@@ -655,7 +655,8 @@ class InvGaussDist(Distribution):
         -------
         random_samples : np.array of same shape as mu
         """
-        return np.random.wald(mean=mu, scale=self.scale, size=None)
+        # numpy's `scale` is the shape parameter lambda = 1 / dispersion
+        return np.random.wald(mean=mu, scale=1.0 / self.scale, size=None)
 
 
 DISTRIBUTIONS = {
